@@ -77,6 +77,13 @@ def _process_point_estimate(x, primals, point_estimates, insert):
 def sample_likelihood(likelihood: Likelihood, point_estimates, primals, key):
     lh, p_liquid = likelihood.freeze(point_estimates=point_estimates, primals=primals)
     white_sample = random_like(key, lh.left_sqrt_metric_tangents_shape)
+    # `jax.random.normal` draws complex numbers with unit total variance, i.e.
+    # variance 1/2 for the real and for the imaginary part. The metric is the
+    # covariance of the left-square-root applied to white noise with unit
+    # variance per real degree of freedom (energy 1/2 r^dagger N^-1 r).
+    white_sample = tree_map(
+        lambda x: x * jnp.sqrt(2.0) if jnp.iscomplexobj(x) else x, white_sample
+    )
     return lh.left_sqrt_metric(p_liquid, white_sample)
 
 
